@@ -197,6 +197,10 @@ def decorate(shapes, seed=0, feat=frozenset()):
             f.stack.append(name)
             if "unlabeled" in feat and rnd.random() < 0.3:
                 labelled = False
+                if "hints" in feat and rnd.random() < 0.5:
+                    # a group with a hint but no label (a table-list group still gets its generated helper note)
+                    f.col("hint")
+                    row["hint"] = f"Hint only {name}"
         elif shape.startswith("begin_repeat"):
             row["type"] = rnd.choice(["begin repeat", "begin_repeat"])
             if shape == "begin_repeat_count":
@@ -212,6 +216,13 @@ def decorate(shapes, seed=0, feat=frozenset()):
         else:
             raise ValueError(shape)
         is_q = not shape.startswith("begin")
+        if "appearance" in feat and is_q and shape in ("text", "typed", "sel1", "selm", "upload") and rnd.random() < 0.25:
+            # an appearance on a question row (together with whatever its parameters put on the control) and a custom body attribute
+            f.col("appearance")
+            row["appearance"] = {"text": "multiline", "typed": "minimal", "sel1": "minimal", "selm": "compact", "upload": "annotate"}.get(shape, "minimal") if row["type"] not in ("image", "photo") or shape != "upload" else "annotate"
+            if rnd.random() < 0.4:
+                f.col("body::kind")
+                row["body::kind"] = f"bk{n}"
         if "instance_attrs" in feat and rnd.random() < (0.5 if not is_q else 0.15):
             # custom attributes on the instance node (instance::x); on a repeat they must appear on the template copy as well
             f.col("instance::kind")
